@@ -64,7 +64,7 @@ func reqKey(o *Obs) string {
 	if o.Zero {
 		return "zero-handler"
 	}
-	return fmt.Sprintf("%d h%d %s pat=%q params=%s", o.Status, o.HID, o.Kind, o.Pattern, fmtParams(o.Params))
+	return fmt.Sprintf("%d h%d %s pat=%q params=%s mw=%v", o.Status, o.HID, o.Kind, o.Pattern, fmtParams(o.Params), o.Trace)
 }
 
 // starKey: OPTIONS * involves no dispatch decision, its Allow set is read at one
@@ -142,6 +142,7 @@ func opID(task, idx int) int { return task*1000 + idx }
 
 func (m *seqModel) build(state string) (*Env, *mux.Router[*Comp]) {
 	e := NewEnv()
+	e.Quiet = true
 	r := NewSimRouter(e, m.w.Opts)
 	for i := range m.w.Setup {
 		applyAdmin(e, r, &m.w.Setup[i])
@@ -349,6 +350,12 @@ func genC06(r *Rng, idx int, tier string) *World {
 				op.K = "handle"
 				op.HID = (t+1)*1000 + i
 				op.Methods = []string{pick(r, []string{"GET", "GET", "POST", "PUT", "DELETE", "PATCH"})}
+				if r.Pct(25) { // registration-level middlewares: each registration must get exactly its own
+					op.MW = []string{fmt.Sprintf("R%d", op.HID)}
+					if r.Pct(40) {
+						op.MW = append(op.MW, fmt.Sprintf("S%d", op.HID))
+					}
+				}
 			case k < 7:
 				op.K = "remove"
 			case k < 9:
@@ -409,6 +416,7 @@ func genC06(r *Rng, idx int, tier string) *World {
 func execC06(w *World, st *Stats) (*Violation, RunInfo) {
 	simrt.SetPoolCfg(w.Pool)
 	env := NewEnv()
+	env.Quiet = true
 	r := NewSimRouter(env, w.Opts)
 	for i := range w.Setup {
 		applyAdmin(env, r, &w.Setup[i])
